@@ -41,12 +41,29 @@ class FactoryHooks(KernelHooks):
         return r
 
 
-def run_factory(db, name, args):
+HIST = '/after calls with another dimension and a caller overwriting an earlier result'
+
+
+def run_factory(db, name, args, history=False):
+    """history=False: a first call.  history=True: the same thread has used the factory before - with another dimension
+    (largest admissible index) and with these very arguments, and the caller has overwritten the vector it got then - so
+    that anything the factory keeps between calls (function-local statics, memoised results) takes part"""
     unit = db.unit('SUNalg')
     f = db.one('SUNalg', 'squids::SU_vector::' + name, len(args))
-    it = Interp(unit, FactoryHooks())
-    r = it.call(f, None, list(args))
-    return f, r
+    hooks = FactoryHooks()
+    if not history:
+        return f, Interp(unit, hooks).call(f, None, list(args))
+    hooks.statics = {}
+    d = args[0]
+    dp = d + 1 if d < DIMS[-1] else d - 1
+    prime = (dp,) if len(args) == 1 else ((dp, dp * dp - 1) if name == 'Generator' else (dp, dp - 1))
+    Interp(unit, hooks).call(f, None, list(prime))
+    r1 = Interp(unit, hooks).call(f, None, list(args))
+    if isinstance(r1, Obj) and r1.fields.get('components') is not None and r1.fields['size'].value == d * d:
+        p = r1.fields['components'].value
+        for k in range(d * d):
+            p.region.cell(p.off + k).value = Poly.var('SCRIBBLE%d' % k)  # the caller modifies its own vector in place
+    return f, Interp(unit, hooks).call(f, None, list(args))
 
 
 def vector_matrix(db, d, obj):
@@ -68,6 +85,9 @@ def stale_note(res):
     """mention components that still carry the previous contents of the storage block"""
     if not res:
         return ''
+    scr = sorted(set(v for p in res[1] if isinstance(p, Poly) for v in p.vars() if v.startswith('SCRIBBLE')))
+    if scr:
+        return '; the result shows what a caller wrote into the vector it obtained from an earlier call (%s): the factory hands out shared storage' % ', '.join(scr[:3])
     old = sorted(set(v for p in res[1] if isinstance(p, Poly) for v in p.vars() if v.startswith('OLD_')))
     return ('; components depend on what the storage block held before (%s%s): they are accumulated onto or never written'
             % (', '.join(old[:3]), ', ...' if len(old) > 3 else '')) if old else ''
@@ -79,6 +99,17 @@ def diag_str(M, d):
         z = M[i][i]
         out.append(str(round(float(z.re.const_value()), 6)) if z.re.is_const() else '?')
     return 'diag(' + ','.join(out) + ')'
+
+
+def offdiag_note(res, d):
+    if not res:
+        return ''
+    M = res[0]
+    for r in range(d):
+        for c in range(d):
+            if r != c and not M[r][c].equals(CPoly(0, 0)):
+                return '; entry (%d,%d) is %s instead of 0' % (r, c, M[r][c])
+    return ''
 
 
 def compare_diag(M, d, ones):
@@ -97,11 +128,11 @@ def run(db, rep, tier):
     n = 0
     for name, (rng, ones_of) in FACTORIES.items():
         for d in DIMS:
-            for idx in rng(d):
+            for idx, hist in [(i, h) for i in rng(d) for h in (False, True)]:
                 n += 1
-                site = '%s/%d/%d' % (name, d, idx)
+                site = '%s/%d/%d%s' % (name, d, idx, HIST if hist else '')
                 try:
-                    f, r = run_factory(db, name, (d, idx))
+                    f, r = run_factory(db, name, (d, idx), hist)
                 except Thrown as t:
                     rep.fail('A.fact.set', site, unit.loc(t.node), 'the operator for admissible index %d' % idx, 'throw: %s' % t.what,
                              'squids::SU_vector::' + name)
@@ -111,33 +142,35 @@ def run(db, rep, tier):
                 ones = ones_of(d, idx)
                 if res is not None and compare_diag(res[0], d, ones):
                     rep.ok('A.fact.set')
-                    if d == 4:
+                    if d == 4 and not hist:
                         rep.sample('A.fact.set', '%s(%d,%d) = %s' % (name, d, idx, diag_str(res[0], d)))
                 else:
                     want = 'diag(' + ','.join('1' if i in ones else '0' for i in range(d)) + ')'
-                    rep.fail('A.fact.set', site, unit.loc(f), want, (diag_str(res[0], d) if res else 'wrong shape') + stale_note(res), f['name'])
-    for d in DIMS:
+                    rep.fail('A.fact.set', site, unit.loc(f), want, (diag_str(res[0], d) if res else 'wrong shape') + offdiag_note(res, d) + stale_note(res), f['name'])
+    for d, hist in [(d, h) for d in DIMS for h in (False, True)]:
         n += 1
+        site = 'Identity/%d%s' % (d, HIST if hist else '')
         try:
-            f, r = run_factory(db, 'Identity', (d,))
+            f, r = run_factory(db, 'Identity', (d,), hist)
         except Thrown as t:
-            rep.fail('A.fact.set', 'Identity/%d' % d, unit.loc(t.node), 'identity operator', 'throw: %s' % t.what, 'squids::SU_vector::Identity')
+            rep.fail('A.fact.set', site, unit.loc(t.node), 'identity operator', 'throw: %s' % t.what, 'squids::SU_vector::Identity')
             continue
         rep.fn(f['name'])
         res = vector_matrix(db, d, r)
         if res is not None and compare_diag(res[0], d, set(range(d))):
             rep.ok('A.fact.set')
         else:
-            rep.fail('A.fact.set', 'Identity/%d' % d, unit.loc(f), 'unit matrix', (diag_str(res[0], d) if res else 'wrong shape') + stale_note(res), f['name'])
+            rep.fail('A.fact.set', site, unit.loc(f), 'unit matrix', (diag_str(res[0], d) if res else 'wrong shape') + stale_note(res), f['name'])
     rep.floor('A.fact.set', n, 20 + 2 * 20 + 5)
     m = 0
     for d in DIMS:
-        for k in range(d * d):
+        for k, hist in [(k, h) for k in range(d * d) for h in (False, True)]:
             m += 1
+            site = 'Generator/%d/%d%s' % (d, k, HIST if hist else '')
             try:
-                f, r = run_factory(db, 'Generator', (d, k))
+                f, r = run_factory(db, 'Generator', (d, k), hist)
             except Thrown as t:
-                rep.fail('A.fact.gen', 'Generator/%d/%d' % (d, k), unit.loc(t.node), 'unit vector %d' % k, 'throw: %s' % t.what, 'squids::SU_vector::Generator')
+                rep.fail('A.fact.gen', site, unit.loc(t.node), 'unit vector %d' % k, 'throw: %s' % t.what, 'squids::SU_vector::Generator')
                 continue
             rep.fn(f['name'])
             res = vector_matrix(db, d, r)
@@ -145,6 +178,6 @@ def run(db, rep, tier):
             if ok:
                 rep.ok('A.fact.gen')
             else:
-                rep.fail('A.fact.gen', 'Generator/%d/%d' % (d, k), unit.loc(f), 'unit vector along component %d' % k,
+                rep.fail('A.fact.gen', site, unit.loc(f), 'unit vector along component %d' % k,
                          ('other' if res else 'wrong shape') + stale_note(res), f['name'])
     rep.floor('A.fact.gen', m, 90)
